@@ -104,6 +104,26 @@ def check(circ, prog=None, deep=True):
         have = circ.node_dict.get(lab, [])
         if set(have) != want_nd.get(lab, set()):
             probs.append(f"node_dict['{lab}'] = {sorted(map(str, have))[:8]} but nodes carrying it are {sorted(map(str, want_nd.get(lab, set())))[:8]}")
+    # the query functions built on the indexes (asked after every edit, so a stale memo behind them shows as well)
+    try:
+        labs = sorted(want_nd)
+        for lab in labs:
+            got = set(circ.get_node_by_labels([lab]))
+            if got != want_nd[lab]:
+                probs.append(f"get_node_by_labels(['{lab}']) = {sorted(map(str, got))[:8]} but nodes carrying it are {sorted(map(str, want_nd[lab]))[:8]}")
+                break
+        for a, b in (("CNOT", "e-e"), ("one-qubit", "e"), ("CNOT", "e-p"), ("OneQubitGateWrapper", "p")):
+            if a in want_nd or b in want_nd:
+                want = want_nd.get(a, set()) & want_nd.get(b, set())
+                got = set(circ.get_node_by_labels([a, b]))
+                if got != want:
+                    probs.append(f"get_node_by_labels(['{a}', '{b}']) = {sorted(map(str, got))[:8]}, the graph says {sorted(map(str, want))[:8]}")
+        got = set(circ.get_node_exclude_labels(["Input", "Output"]))
+        want = set(dag.nodes) - want_nd.get("Input", set()) - want_nd.get("Output", set())
+        if got != want:
+            probs.append(f"get_node_exclude_labels(['Input', 'Output']) has {len(got)} nodes, the graph {len(want)} operations")
+    except Exception as e:
+        probs.append(f"label query raises {type(e).__name__}: {e}"[:200])
     if probs:
         return probs
     # ---------------- sequence, depth
